@@ -85,13 +85,13 @@ Theorem C16_vec_contiguous : forall cfg L ty q al es size align offs offx vp len
   rec_ok cfg (Vec L ty q al es size align offs offx vp len lensize rt) = true ->
   (forall i, (i < L)%nat -> nth i offs 0 = Z.of_nat i * es) /\ offx = 0 /\ vp = 0 /\ len = Z.of_nat L /\ (is_aligned cfg q al = false -> size = Z.of_nat L * es).
 Proof. exact vec_contiguous. Qed.
-Theorem C16_mat_column_major : forall cfg C R ty q al es size align colsize colalign offs vp len rt,
-  rec_ok cfg (Mat C R ty q al es size align colsize colalign offs vp len rt) = true ->
+Theorem C16_mat_column_major : forall cfg C R ty q al es size align colsize colalign offs vp len lensize rt,
+  rec_ok cfg (Mat C R ty q al es size align colsize colalign offs vp len lensize rt) = true ->
   (forall c r, (c < C)%nat -> (r < R)%nat -> nth (c * R + r) offs 0 = Z.of_nat c * colsize + Z.of_nat r * es) /\ vp = 0 /\ size = Z.of_nat C * colsize /\
   (is_aligned cfg q al = false -> forall c r, (c < C)%nat -> (r < R)%nat -> nth (c * R + r) offs 0 = Z.of_nat (c * R + r) * es).
 Proof. exact mat_column_major. Qed.
-Theorem C16_qua_order : forall cfg ty q al es size align ox oy oz ow offs vp len rt,
-  rec_ok cfg (Qua ty q al es size align ox oy oz ow offs vp len rt) = true ->
+Theorem C16_qua_order : forall cfg ty q al es size align ox oy oz ow offs vp len lensize rt,
+  rec_ok cfg (Qua ty q al es size align ox oy oz ow offs vp len lensize rt) = true ->
   (if quat_wxyz cfg then ow = 0 /\ ox = es /\ oy = 2 * es /\ oz = 3 * es else ox = 0 /\ oy = es /\ oz = 2 * es /\ ow = 3 * es) /\ size = 4 * es /\ vp = 0.
 Proof. exact qua_order. Qed.
 (* the documented sizes of the aligned float types, read off the contract *)
